@@ -1,7 +1,10 @@
 //! C01 - dimensions always agree with contents (explicit-state search, DESIGN.md 4/C01).
 
-use super::array_bfs::{bounds_for, init_units, run_unit_generic};
-use crate::engine::{Ctx, Kind, Profile, Prop, Tier};
+use toodee::{TooDee, TooDeeOps};
+
+use super::array_bfs::{apply, bounds_for, check_state, init_units, materialize, run_unit_generic, Act};
+use crate::engine::util::Model;
+use crate::engine::{guarded, Ctx, Kind, Profile, Prop, Tier};
 
 pub struct C01P;
 pub static C01: C01P = C01P;
@@ -23,9 +26,26 @@ impl Prop for C01P {
         tier.pick(vec![Profile::Chk, Profile::Wrap], vec![Profile::Chk, Profile::Wrap, Profile::Rel])
     }
     fn units(&self, tier: Tier) -> Vec<String> {
-        init_units('U', &bounds_for(tier, QUICK, THOROUGH))
+        let mut v = init_units('U', &bounds_for(tier, QUICK, THOROUGH));
+        // states outside the search's cap that exercise paths it cannot reach (they report no successors)
+        for (c, r) in super::hugezst::shapes() {
+            v.push(format!("extra:hugezst:{}x{}", c, r));
+        }
+        for k in [21usize, 33, 40, 48] {
+            v.push(format!("extra:wide:{}", k));
+        }
+        v
     }
     fn run_unit(&self, unit: &str, ctx: &mut Ctx) {
+        if let Some(shape) = unit.strip_prefix("extra:hugezst:") {
+            let (c, r) = super::hugezst::parse_shape(shape);
+            run_huge_zst(c, r, ctx);
+            return;
+        }
+        if let Some(k) = unit.strip_prefix("extra:wide:") {
+            run_wide(k.parse().unwrap(), ctx);
+            return;
+        }
         let b = bounds_for(ctx.tier, QUICK, THOROUGH);
         run_unit_generic(unit, ctx, &b, false);
     }
@@ -40,6 +60,8 @@ impl Prop for C01P {
          clear, swap_dimensions, reserve/reserve_exact/shrink_to_fit, fill, clone_from_slice, clone_from_toodee, Clone::clone_from (same, transposed, smaller, larger, empty sources), swap, swap_rows, swap_cols, flips, translate, sorts, copy_within, Index/data_mut writes with in-range and out-of-range arguments, insertions from iterators that lie about their length (rejected mid-way; the state is read back)) \
          is executed twice on a freshly materialised array (exact capacity, spare capacity); after each the shape invariant and cell-by-cell equality with a rows-of-cells model are checked. \
          A case is one (state, action, capacity variant); it is non-trivial when the call was accepted (did not panic); distinct by (state key, action, variant). \
+         Outside the cap: (i) arrays of () with close to usize::MAX cells (usize::MAX x 1, 1 x usize::MAX, MAX/k x k, 2^32 x (2^32-1), ...) from init / new / from_vec / from_box, then swap_dimensions, then clear: the shape invariant and the reported lengths of rows(), cells(), col(first), col(last) at every step; \
+         (ii) wide and tall arrays (21, 33, 40, 48 lines, exact and spare capacity) through the in-place algorithms - sorts on tie-rich key lines (std's unstable sort only differs from a stable one beyond 20 elements), flips, translate, swaps - against the model. \
          Afterwards each state's shortest history is replayed on one live object and must reach the recorded key (traces_validated_against_impl)."
             .into()
     }
@@ -53,5 +75,104 @@ impl Prop for C01P {
             "rank compression of labels is sound because every operation is parametric in T or a comparison sort (commutes with order isomorphisms)".into(),
             "64-bit usize only".into(),
         ]
+    }
+}
+
+/// The shape invariant and the reported iterator lengths on arrays of () with close to usize::MAX cells.
+fn run_huge_zst(c: usize, r: usize, ctx: &mut Ctx) {
+    for ctor in ["init", "new", "from_vec", "from_box"] {
+        ctx.case(
+            || format!("TooDee<()> {}x{} via {}, then swap_dimensions, then clear", c, r, ctor),
+            |cs| {
+                cs.nontrivial((c, r, ctor));
+                cs.outcome("huge-zst");
+                cs.transitions = 3;
+                let built = guarded(|| match ctor {
+                    "init" => TooDee::init(c, r, ()),
+                    "new" => TooDee::<()>::new(c, r),
+                    "from_vec" => TooDee::from_vec(c, r, vec![(); c * r]),
+                    _ => TooDee::from_box(c, r, vec![(); c * r].into_boxed_slice()),
+                });
+                let mut t = match built {
+                    Ok(t) => t,
+                    Err(m) => {
+                        cs.fail("hugezst:panic", format!("{} of a {}x{} array of () panicked: {}", ctor, c, r, m));
+                        return;
+                    }
+                };
+                let mut observe = |t: &TooDee<()>, ec: usize, er: usize, at: &str, cs: &mut crate::engine::Case| {
+                    let got = guarded(|| {
+                        let (nc, nr) = (t.num_cols(), t.num_rows());
+                        let cols = if nc > 0 { Some((t.col(0).len(), t.col(nc - 1).len())) } else { None };
+                        (nc, nr, t.data().len(), t.rows().len(), t.cells().len(), cols)
+                    });
+                    match got {
+                        Err(m) => cs.fail("hugezst:panic", format!("{}: observing the array panicked: {}", at, m)),
+                        Ok((nc, nr, len, rl, cl, cols)) => {
+                            if (nc, nr) != (ec, er) || nc.checked_mul(nr) != Some(len) || (nc == 0) != (nr == 0) {
+                                cs.fail("shape:len", format!("{}: size ({},{}) over {} cells, expected ({},{})", at, nc, nr, len, ec, er));
+                            } else if rl != nr || cl != len || cols.map_or(false, |(a, b)| a != nr || b != nr) {
+                                cs.fail("shape:rows-len", format!("{}: rows().len() = {}, cells().len() = {}, col(first/last).len() = {:?} on a {}x{} array", at, rl, cl, cols, nc, nr));
+                            }
+                        }
+                    }
+                };
+                observe(&t, c, r, "after construction", cs);
+                if let Err(m) = guarded(|| t.swap_dimensions()) {
+                    cs.fail("hugezst:panic", format!("swap_dimensions panicked: {}", m));
+                    return;
+                }
+                observe(&t, r, c, "after swap_dimensions", cs);
+                if let Err(m) = guarded(|| t.clear()) {
+                    cs.fail("hugezst:panic", format!("clear panicked: {}", m));
+                    return;
+                }
+                observe(&t, 0, 0, "after clear", cs);
+            },
+        );
+    }
+}
+
+/// Wide and tall arrays through the in-place algorithms, against the model (same oracle as the search).
+fn run_wide(k: usize, ctx: &mut Ctx) {
+    for (c, r) in [(k, 2usize), (2, k), (k, 1), (1, k)] {
+        // tie-rich key lines: the first row / column carries keys (i*a+b) mod m, the rest unique labels
+        for (a, b, m) in [(1usize, 0usize, 2usize), (3, 1, 3), (5, 0, 4), (7, 1, 4), (1, 0, 1)] {
+            let mut labels: Vec<u32> = (0..(c * r) as u32).map(|i| 100 + i).collect();
+            for i in 0..k {
+                let key = ((i * a + b) % m) as u32;
+                // the key row (for a wide array) or key column (for a tall one)
+                let idx = if c >= r { i } else { i * c };
+                labels[idx] = key;
+            }
+            let mut acts = vec![Act::new("srt", &[0]), Act::new("sct", &[0]), Act::new("flr", &[]), Act::new("flc", &[]), Act::new("trn", &[1, 1.min(r - 1)]), Act::new("swr", &[0, r - 1]), Act::new("swc", &[0, c - 1])];
+            if r > 1 {
+                acts.push(Act::new("srt", &[r - 1]));
+            }
+            if c > 1 {
+                acts.push(Act::new("sct", &[c - 1]));
+            }
+            for act in acts {
+                for cap in ['x', 's'] {
+                    let mut act = act.clone();
+                    act.cap = cap;
+                    ctx.case(
+                        || format!("{}x{} array with key line (i*{}+{}) mod {}: action {}", c, r, a, b, m, act.enc()),
+                        |cs| {
+                            cs.transitions = 1;
+                            cs.outcome("accepted");
+                            cs.nontrivial((c, r, a, b, m, &act.op, &act.a, cap));
+                            let mut t: TooDee<u32> = materialize(c, r, &labels, cap == 's');
+                            let mut model: Model<u32> = Model::from_flat(c, r, &labels);
+                            let panicked = apply(&mut t, &mut model, &act, cs);
+                            if panicked {
+                                cs.fail("wide:panics-on-valid", format!("{} panicked on a {}x{} array", act.enc(), c, r));
+                            }
+                            check_state(&t, &model, cs, &format!("after {}", act.enc()));
+                        },
+                    );
+                }
+            }
+        }
     }
 }
